@@ -168,7 +168,7 @@ def all_names():
 
 def _malformed(r):
     good = r.choice(["a", "foo", "a.b", '"x y"', "a.\"b.c\""])
-    kind = r.choice(["unterminated", "dangling", "empty-seg", "empty-seg2", "quote-mid", "illegal-bare", "empty", "lead-dot", "trail-dot", "at-only", "space"])
+    kind = r.choice(["unterminated", "dangling", "empty-seg", "empty-seg2", "quote-mid", "illegal-bare", "empty", "lead-dot", "trail-dot", "at-only", "space", "trailing-newline"])
     if kind == "unterminated":
         return good + '."abc', kind
     if kind == "dangling":
@@ -180,9 +180,11 @@ def _malformed(r):
     if kind == "quote-mid":
         return 'foo"bar"', kind
     if kind == "illegal-bare":
-        return good + "." + r.choice(["a-b", "a b", "1a", "a$", "a{", "é", "a/b", "a+b", "'a", "a\nb"]), kind
+        return good + "." + r.choice(["a-b", "a b", "1a", "a$", "a{", "é", "a/b", "a+b", "'a", "a\nb", "a\n", "b'\n", "\na", "a\t"]), kind
     if kind == "empty":
         return "", kind
+    if kind == "trailing-newline":
+        return r.choice(["b\n", "a.b\n", "b\n.c", "zz'\n"]), kind
     if kind == "lead-dot":
         return "." + good, kind
     if kind == "trail-dot":
